@@ -415,6 +415,19 @@ TERM_CTORS = ["ctpg::char_term::char_term", "ctpg::string_term::string_term", "c
               "ctpg::regex_term::regex_term"]
 
 
+def _role_params(f):
+    """{"precedence": id, "a": id}: the constructor parameters by type (int -> precedence, associativity -> a), whatever
+    they are called and however they are passed (value, const value, const reference)."""
+    out = {}
+    for p in f.o["params"]:
+        t = f.facts.TC(p["t"]).replace("const ", "").replace("&", "").replace("enum ", "").strip()
+        if t == "int" and "precedence" not in out:
+            out["precedence"] = p["id"]
+        elif t == "ctpg::associativity" and "a" not in out:
+            out["a"] = p["id"]
+    return out
+
+
 def precpass(chk, fx):
     chk.rule("PRECPASS", "user-written precedence / associativity reach the tables unchanged", 12)
     seen = set()
@@ -429,7 +442,7 @@ def precpass(chk, fx):
         if f.o.get("implicit") or f.o.get("defaulted") or len(f.o["params"]) != 2:
             continue
         inits = {i.get("member"): AI.term(i.get("init")) for i in f.o.get("inits", ())}
-        ps = {p["n"]: p["id"] for p in f.o["params"]}
+        ps = _role_params(f)
         for member, pname in (("precedence", "precedence"), ("ass", "a")):
             t = inits.get(member)
             if t and t[0] == "path" and len(t[2]) == 1 and pname in ps and t[2][0][1] == ps[pname]:
@@ -450,7 +463,7 @@ def precpass(chk, fx):
     # derived term constructors hand (precedence, a) to term(...)
     for q in TERM_CTORS:
         for f in fx.need(q):
-            ps = {p["n"]: p["id"] for p in f.o["params"]}
+            ps = _role_params(f)
             if "precedence" not in ps and "a" not in ps:
                 continue
             base = [i for i in f.o.get("inits", ()) if i.get("base") or i.get("delegating")]
